@@ -7,7 +7,9 @@ import (
 	"errors"
 	"fmt"
 	"math"
+	"runtime"
 	"strconv"
+	"sync"
 	"testing"
 
 	"gopkg.in/typ.v4/maps"
@@ -31,7 +33,12 @@ type Case struct {
 	// Nest > 0: while the outer helper is running, its callback calls a bundle of helpers on another slice
 	// (re-entrancy): on the callback invocations number Nest-1, Nest-1+(n+2), Nest-1+2(n+2), ... counted over the whole case
 	Nest int `json:"nest,omitempty"`
+	// Procs > 0: the case runs with runtime.GOMAXPROCS(Procs) (chunked/parallel fast paths depend on it)
+	Procs int `json:"procs,omitempty"`
 }
+
+// procsMu serialises the cases that change GOMAXPROCS (parallel copies of a case must not restore each other's setting).
+var procsMu sync.Mutex
 
 type myInts []int
 
@@ -46,8 +53,9 @@ const (
 		"probe indices -2..n+1 (a selection when n>64) and MinInt/MaxInt); after every call - and from inside every callback " +
 		"(every call when the backing array has at most 64 elements, sampled otherwise) - the full-capacity snapshot of every argument must be unchanged, and " +
 		"every returned slice is overwritten up to its full capacity and the snapshot compared again (Trim family instead: result must " +
-		"be the sub-slice s[lo:hi] of the argument, by address); nest>0: callbacks re-enter the library (Fold, FoldReverse, Map, MapErr, Filter, Any, All, " +
+		"be the sub-slice s[lo:hi] of the argument, by address); Except and the Trim family are also called with the slice itself and with a sub-slice s[a:b] of it as their second argument; nest>0: callbacks re-enter the library (Fold, FoldReverse, Map, MapErr, Filter, Any, All, " +
 		"Index, Distinct, DistinctFunc, GroupBy, CountBy, Except, Trim on a second slice, results checked) while the outer helper is running; " +
+		"procs>0: the whole case runs under runtime.GOMAXPROCS(procs); one case in 16 (C14.enum: 32) is run again as four parallel independent copies; " +
 		"non-trivial = at least 3 elements, a duplicate value and at least 2 distinct values"
 )
 
@@ -185,6 +193,14 @@ func checkCounts[K comparable](op, desc string, got []slices.Counting[K], want [
 
 // Run executes every slice helper on the case.
 func Run(c Case) pbt.Outcome {
+	if c.Procs > 0 {
+		procsMu.Lock()
+		old := runtime.GOMAXPROCS(c.Procs)
+		defer func() {
+			runtime.GOMAXPROCS(old)
+			procsMu.Unlock()
+		}()
+	}
 	n := len(c.S)
 	m := c.M
 	if m < 1 {
@@ -712,6 +728,63 @@ func Run(c Case) pbt.Outcome {
 		}
 	}
 
+	// ---- the same memory passed twice: the slice itself, and the sub-slice s[a:b] of it (a, b derived from j and c), as exclude/unwanted list
+	{
+		a := c.J
+		if a < 0 {
+			a = 0
+		}
+		if a > n {
+			a = n
+		}
+		b := a + ((c.C%(n-a+1))+(n-a+1))%(n-a+1)
+		subs := [][2]int{{0, n}, {a, b}}
+		if n > 1024 { // the reference is quadratic: long slices get lists of at most 200 / 64 elements
+			if b > a+64 {
+				b = a + 64
+			}
+			subs = [][2]int{{0, 200}, {a, b}}
+		}
+		for _, sub := range subs {
+			list := s[sub[0]:sub[1]:sub[1]]
+			if sub[0] == 0 && sub[1] == n {
+				list = s
+			}
+			listed := orig[sub[0]:sub[1]]
+			var want []int
+			for _, v := range orig {
+				if !has(listed, v) {
+					want = append(want, v)
+				}
+			}
+			name := fmt.Sprintf("s[%d:%d]", sub[0], sub[1])
+			var got myInts = slices.Except(s, list)
+			if msg := checkNew("Except(s, "+name+")", got, want); msg != "" {
+				return pbt.Fail("%s", msg)
+			}
+			lo, hi := 0, n
+			for hi > 0 && has(listed, orig[hi-1]) {
+				hi--
+			}
+			for lo < hi && has(listed, orig[lo]) {
+				lo++
+			}
+			lo2 := 0
+			for lo2 < n && has(listed, orig[lo2]) {
+				lo2++
+			}
+			if msg := checkSub("Trim(s, "+name+")", slices.Trim(s, list), lo, hi); msg != "" {
+				return pbt.Fail("%s", msg)
+			}
+			if msg := checkSub("TrimLeft(s, "+name+")", slices.TrimLeft(s, list), lo2, n); msg != "" {
+				return pbt.Fail("%s", msg)
+			}
+			if msg := checkSub("TrimRight(s, "+name+")", slices.TrimRight(s, list), 0, hi); msg != "" {
+				return pbt.Fail("%s", msg)
+			}
+		}
+	}
+
 	// ---- TryGet, SafeGet, SafeGetOr over indices -2..n+1 (a selection for long slices) and the extreme ints; Last
 	idxs := []int{math.MinInt, math.MaxInt}
 	if n <= 64 {
@@ -773,8 +846,12 @@ func Run(c Case) pbt.Outcome {
 		lab("n=257..1024")
 	case n <= 4096:
 		lab("n=1025..4096")
+	case n <= 16384:
+		lab("n=4097..16384")
+	case n <= 65536:
+		lab("n=16385..65536")
 	default:
-		lab("n>4096")
+		lab("n>65536")
 	}
 	for _, th := range []int{32, 64, 256, 1024, 4096} {
 		if distinct > th {
@@ -807,6 +884,12 @@ func Run(c Case) pbt.Outcome {
 	}
 	if len(back) > n {
 		lab("spare-capacity")
+	}
+	if (len(back)-n)*8 > 1<<20 {
+		lab("spare-capacity>1MiB")
+	}
+	if c.Procs > 0 {
+		lab("gomaxprocs=" + strconv.Itoa(c.Procs))
 	}
 	switch {
 	case c.J < n && c.J == 0:
@@ -873,6 +956,9 @@ func genCase(t *rapid.T) Case {
 	// unwanted/exclude list: random values, optionally seeded with the slice's own end values so that
 	// trimming at both ends is frequent
 	set := rapid.SliceOfN(rapid.IntRange(0, 5), 0, 3).Draw(t, "set")
+	if rapid.IntRange(0, 5).Draw(t, "longSet") == 0 { // a long list (9..72 values, with repetitions and values the slice cannot hold)
+		set = pbt.OpsOf(t, rapid.IntRange(0, 9), []int{9, 17, 33}, "setLong")
+	}
 	if n > 0 {
 		switch rapid.IntRange(0, 3).Draw(t, "setEnds") {
 		case 1:
@@ -898,9 +984,9 @@ func genCase(t *rapid.T) Case {
 
 var specRand = pbt.Register(&pbt.Spec[Case]{
 	Property: "C14", Name: "C14.rand",
-	Rule: "rapid: length 3..12 over 0..k (k drawn 1..5), one case in eight length 0..2 (k 0..5), spare 0..3, m 1..4, c 0..6, j 0..n+1, unwanted list 0..5 values " +
+	Rule: "rapid: length 3..12 over 0..k (k drawn 1..5), one case in eight length 0..2 (k 0..5), spare 0..3, m 1..4, c 0..6, j 0..n+1, unwanted list 0..5 values, one case in six 9..72 values over 0..9 " +
 		"(often containing the slice's end values), one case in four with nest 1..n+2; " + sliceRule,
-	Gen: genCase, Run: Run, Quick: 30000, Thorough: 200000,
+	Gen: genCase, Run: Run, Quick: 30000, Thorough: 200000, Replicas: 4, ReplicaEvery: 16,
 })
 
 // enumSlices yields every sequence over 0..k-1 of length 0..maxLen.
@@ -965,7 +1051,12 @@ var specEnum = pbt.Register(&pbt.Spec[Case]{
 	Property: "C14", Name: "C14.enum",
 	Rule: "exhaustive small scope: every sequence over 0..2 of length 0..5 x (m in 1..3, r<m) x every subset of 0..2 as unwanted/exclude list " +
 		"x t in 0..max(n,3) with j=c=t, three points in eight with nested calls (thorough: additionally sequences over 0..2 up to length 7 with m<=2, and over 0..3 up to length 5 with m<=3); " + sliceRule,
-	Enum: func(shard, shards int, tier string, yield func(Case) bool) {
+	Enum: func(shard, shards int, tier string, yieldAll func(Case) bool) {
+		i := 0
+		yield := func(c Case) bool { // the shards share the space point by point
+			i++
+			return i%shards != shard || yieldAll(c)
+		}
 		if !enumGrid(3, 5, 3, yield) {
 			return
 		}
@@ -976,7 +1067,7 @@ var specEnum = pbt.Register(&pbt.Spec[Case]{
 			enumGrid(4, 5, 3, yield)
 		}
 	},
-	Run: Run, Exhaustive: true,
+	Run: Run, Exhaustive: true, Replicas: 4, ReplicaEvery: 32,
 })
 
 func TestC14Enum(t *testing.T) { pbt.Check(t, specEnum) }
